@@ -448,7 +448,7 @@ def str_repeat(st, s, n):
     if str_known_len(s) == 1:
         # one symbolic character repeated: every position holds that character
         c = str_chars(s)[0]
-        r = st.fresh_str('rep')
+        r = _STR_REP(str_z3(s), z3.If(zn > 0, zn, 0))       # a function of (character, count)
         st.assume(z3.Length(r) == z3.If(zn > 0, zn, 0))
         i = z3.Int('k!rep')
         st.assume(z3.ForAll([i], z3.Implies(z3.And(i >= 0, i < z3.Length(r)),
